@@ -63,7 +63,9 @@ def _seed_key(s):
 
 def gen_noise(rng, n_actors):
     k = rng.weighted([("np_seed", 4), ("np_draw", 3), ("np_set_state", 1), ("py_seed", 1), ("py_draw", 1), ("clock", 3),
-                      ("lib", 3), ("spawn", 2), ("gc", 0.5), ("printopts", 0.5), ("np_default_rng", 1), ("numba_threads", 1.5), ("fork", 1)])
+                      ("lib", 3), ("spawn", 2), ("gc", 0.5), ("printopts", 0.5), ("np_default_rng", 1), ("numba_threads", 1.5), ("fork", 1), ("failing_call", 1.5)])
+    if k == "failing_call":
+        return {"k": k, "v": rng.randrange(100)}
     if k == "numba_threads":
         return {"k": k, "v": rng.randint(1, 4)}
     if k in ("np_seed", "py_seed", "np_set_state", "np_default_rng"):
@@ -100,6 +102,9 @@ def gen_plan(rng, tier, index=0):
             variant_seed = prev["seed"]
         else:
             variant_seed = None
+        if kind in ("FT", "FTSH") and "fft" not in params and r.chance(0.25):
+            # the optional FFT= parameter: a plain function, or one buffer-owning object shared by all calls of the run
+            params = dict(params, fft=r.choice(["plain", "shared-buffer", "shared-buffer"]))
         if params.get("nx") == 1:
             params["nx"] = 2          # a 1x1 screen holds only the piston mode, which is removed: it is 0 for every seed
         if kind in ("FT", "FTSH") and g == 0 and rng.chance(0.012 if tier != "thorough" else 0.03):
@@ -214,6 +219,8 @@ class _Actor(object):
                 else:
                     out = self.obj.add_row()
             e = ("ok", core.hbytes(repr(screens.abytes(out)[:2]).encode() + screens.abytes(out)[2]))
+            if kind in ("FT", "FTSH") and not sp.get("scribble"):
+                self.kept = (out, screens.abytes(out))          # the caller keeps the screen it was given
             if sp.get("scribble") and kind in ("FT", "FTSH"):
                 # the returned screen belongs to the caller, who converts it in place (radians -> nanometres, as the
                 # docstring suggests) - a later call with the same seed must not see that
@@ -320,7 +327,10 @@ def _execute(plan, keep_log=False):
             if "noise" in st:
                 op = st["noise"]
                 k = op["k"]
-                if k == "lib":
+                if k == "failing_call":
+                    screens.failing_call(op.get("v", 0))
+                    res.count("fault.noise.failing_call")
+                elif k == "lib":
                     lib_call(op["name"], op.get("v", 0))
                     res.count("fault.noise.lib." + op["name"])
                 elif k == "spawn":
@@ -359,6 +369,14 @@ def _execute(plan, keep_log=False):
     def pkey(s):
         return (s["kind"], repr(sorted(s["params"].items())))
 
+    for i, s in enumerate(specs):
+        kept = getattr(actors[i], "kept", None)
+        if kept is not None:
+            res.count("oracle.kept_screens_compared")
+            if screens.abytes(kept[0]) != kept[1]:
+                res.violate("aliasing", "C06:screen-returned-earlier-was-overwritten:%s" % s["kind"],
+                            "actor %d (%s, seed %r, params %s): the screen this call returned has changed since - a later call wrote into "
+                            "the array the caller had been given" % (i, s["kind"], s["seed"], s["params"]), -1)
     for i, s in enumerate(specs):
         ct = getattr(actors[i], "clone_trace", None)
         if ct and s.get("clone"):
